@@ -1530,7 +1530,7 @@ func (x *runner) manual(h *gorm.DB, b *Body, opts string) {
 }
 
 // hangAfter: how long a top-level step may take before it is declared deadlocked (a step takes well under a millisecond).
-const hangAfter = 20 * time.Second
+const hangAfter = 10 * time.Second
 
 type result struct {
 	viols      []string
